@@ -14,6 +14,9 @@ claimed["C01"]=dict(cat="model_checking", ref="DESIGN.md §5 C01",
 claimed["C02"]=dict(cat="model_checking", ref="DESIGN.md §5 C02",
    text="The real MerklerootsService.GetMerkleRootsConfirmations -> HeaderRepository -> sql.HeadersDb (sqlTipOfChainHeight, sqlVerifyHash) -> dto.ToMerkleRootConfirmation -> mapToMerkleRootsConfirmationsResponses is executed symbolically over an arbitrary INV-H store with an arbitrary request list and an arbitrary 64-bit configured excess; cvc5 decides per item that the verdict, echoed fields and block hash are the specified ones (distance above the tip computed in unbounded arithmetic), that the overall verdict is the worst one and that the store is untouched. Bounded in rows and list length.",
    note="Trusted: go/ssa, executor, sqlm SQL model (validated per run against real SQLite by native replay of path witnesses), cvc5. JSON binding and the gin shell are outside this check. 'Follows reorganisations' is the composition with C01 (argument).")
+claimed["C04"]=dict(cat="model_checking", ref="DESIGN.md §5 C04",
+   text="The real HeaderService read operations (GetHeaderByHash, GetHeadersState, GetTips, GetTip, GetHeaderAncestorsByHash) are executed symbolically through HeaderRepository, sql.HeadersDb and the SQL text (incl. the recursive CTEs and the tips UNION) over an arbitrary INV-H store; cvc5 decides on every path that the answer is what the stored tree implies (found iff stored and equal in every field; tips = longest tip plus every stale/orphan leaf, as a set; ancestors = the parent-linked path iff one descends from the other, an error otherwise) and that no row changed.",
+   note="Trusted: go/ssa, executor, sqlm (validated per run against real SQLite), cvc5. Not yet encoded: by-height windows, common-ancestor, JSON mapping. Where 'descends from' is ambiguous for an orphan root whose parent was stored later, either reading is accepted.")
 NA={}
 checks=[]
 for p in props:
